@@ -11,7 +11,7 @@ SPECS = {"chans": (ChansSpec(), "harness_merge", "runner-merge"),
 
 
 def run(ctx):
-    proofs_ok = ctx.check_proofs(PROP_FILES, extra_targets=["theories/Conc/Merge.vo"])
+    proofs_ok = ctx.check_proofs(PROP_FILES, extra_targets=["theories/Conc/Merge.vo", "theories/Conc/MergeMatcher.vo"])
     ok, out, exe = vlib.build_runner(module="harness_merge", exe_name="runner-merge")
     if not ok:
         ctx.violation("harness-build", "the harness does not build against the current tree: " + out[-1500:],
